@@ -717,3 +717,165 @@ func init() {
 			}
 		}})
 }
+
+// ---- NILNODE --------------------------------------------------------------------------
+
+func init() {
+	Register(&Rule{ID: "NILNODE", Props: []string{"C01", "C10"}, Min: 0,
+		Doc: "a *mastNode variable that can still hold its zero value nil where two branches meet (one branch assigned it, the other did not: the empty-tree branch of Insert) is not dereferenced, and no method is called on it, unless a nil test on every path says otherwise.",
+		Run: func(c *Ctx) {
+			P := c.P
+			n := 0
+			for _, fn := range P.Funcs {
+				if fn.Pkg.Pkg.Path() != ir.MastPath || c.Facts.debugOnlyFunc(fn) != "" {
+					continue
+				}
+				for _, b := range fn.Blocks {
+					if ir.IsDead(b) {
+						continue
+					}
+					for _, ins := range b.Instrs {
+						phi, ok := ins.(*ssa.Phi)
+						if !ok || !isNodePtr(phi.Type()) || phi.Referrers() == nil {
+							continue
+						}
+						hasNil := false
+						for i, e := range phi.Edges {
+							if ir.IsNilConst(e) && !ir.IsDead(b.Preds[i]) {
+								hasNil = true
+							}
+						}
+						if !hasNil {
+							continue
+						}
+						for _, r := range *phi.Referrers() {
+							deref := false
+							switch y := r.(type) {
+							case *ssa.FieldAddr:
+								deref = y.X == ssa.Value(phi)
+							case *ssa.UnOp:
+								deref = y.Op == token.MUL && y.X == ssa.Value(phi)
+							case ssa.CallInstruction:
+								com := y.Common()
+								if sc := ir.Callee(com); sc != nil && sc.Signature.Recv() != nil && len(com.Args) > 0 && com.Args[0] == ssa.Value(phi) {
+									deref = true
+								}
+							}
+							if !deref || ir.IsDead(r.Block()) {
+								continue
+							}
+							n++
+							pos := P.InstrPos(r)
+							what := fmt.Sprintf("use of %s (may be the zero value) in %s", pathDesc(ir.Sym(phi)), ir.FuncName(fn))
+							if ir.FlowNonNil(phi, r) {
+								c.OK(pos, what, "tested non-nil on every path", false)
+							} else if okG, why := ir.GuardedNonNil(phi, r); okG {
+								c.OK(pos, what, why, false)
+							} else {
+								c.Violation(fn, pos, "node variable used where it may still be nil",
+									"one of the branches that meet before this use leaves the node variable at its zero value (nil): the dereference panics on that path (e.g. the first Insert into a tree that was emptied)")
+							}
+						}
+					}
+				}
+			}
+			if n == 0 {
+				c.OK("-", "no *mastNode φ with a nil arm is dereferenced", "scan of all functions", false)
+			}
+		}})
+}
+
+// ---- TYPEGUARD ------------------------------------------------------------------------
+
+func init() {
+	Register(&Rule{ID: "TYPEGUARD", Props: []string{"C05"}, Min: 3,
+		Doc: "a root is only handed out if it can be loaded again: in the function that drives the node store under MakeRoot, the node store is unreachable on every combination of the three configuration tests in which the unmarshaler does not use registered types and the key type or the value type is unknown (zeroKey == nil or zeroValue == nil) — decided by pruning the control-flow graph under each such valuation.",
+		Run: runTYPEGUARD})
+}
+
+// reachUnder: can target's block be reached from fn's entry when every branch whose condition the valuation
+// decides is followed only in the decided direction?
+func reachUnder(fn *ssa.Function, target ssa.Instruction, val func(cond ssa.Value) (bool, bool)) bool {
+	seen := map[*ssa.BasicBlock]bool{}
+	var walk func(b *ssa.BasicBlock) bool
+	walk = func(b *ssa.BasicBlock) bool {
+		if seen[b] {
+			return false
+		}
+		seen[b] = true
+		if b == target.Block() {
+			return true
+		}
+		if len(b.Instrs) > 0 {
+			if iff, ok := b.Instrs[len(b.Instrs)-1].(*ssa.If); ok {
+				cond, neg := iff.Cond, false
+				for {
+					u, ok := cond.(*ssa.UnOp)
+					if !ok || u.Op != token.NOT {
+						break
+					}
+					cond, neg = u.X, !neg
+				}
+				if v, known := val(cond); known {
+					if v != neg {
+						return walk(b.Succs[0])
+					}
+					return walk(b.Succs[1])
+				}
+			}
+		}
+		for _, s := range b.Succs {
+			if walk(s) {
+				return true
+			}
+		}
+		return false
+	}
+	return walk(fn.Blocks[0])
+}
+
+func runTYPEGUARD(c *Ctx) {
+	P := c.P
+	sh := findFlush(c)
+	store, _ := persistingStoreFn(c)
+	if sh == nil || store == nil {
+		return
+	}
+	var target ssa.Instruction
+	for _, cs := range P.Callers[store] {
+		if cs.Parent() == sh.F {
+			target = cs
+		}
+	}
+	if target == nil {
+		c.AnchorMissing("call of the node store in " + ir.FuncName(sh.F))
+		return
+	}
+	type val struct{ u, k, v bool }
+	n := 0
+	for _, w := range []val{{false, true, false}, {false, false, true}, {false, true, true}} {
+		w := w
+		n++
+		reach := reachUnder(sh.F, target, func(cond ssa.Value) (bool, bool) {
+			if mastFieldLoad(cond, "unmarshalerUsesRegisteredTypes") {
+				return w.u, true
+			}
+			if tv, tnn, ok := ir.NilTest(cond); ok {
+				if mastFieldLoad(tv, "zeroKey") {
+					return w.k != tnn, true // cond true ⇔ (non-nil if tnn) ; key is nil iff w.k
+				}
+				if mastFieldLoad(tv, "zeroValue") {
+					return w.v != tnn, true
+				}
+			}
+			return false, false
+		})
+		what := fmt.Sprintf("registered types: %v, key type unknown: %v, value type unknown: %v", w.u, w.k, w.v)
+		if reach {
+			c.Violation(sh.F, P.InstrPos(target), "tree persisted although its entries cannot be decoded again ("+what+")",
+				"with neither registered types nor an example key/value to learn the Go type from, the loader cannot unmarshal what is being written: MakeRoot hands out a root whose reload loses every value (or fails), instead of refusing")
+		} else {
+			c.OK(P.InstrPos(target), "node store unreachable when "+what, "pruned control-flow search", false)
+		}
+	}
+}
